@@ -508,7 +508,9 @@ def validate_translator(prop, claims, seed, pool, max_claims=120):
             rep['skipped'] += 1
             continue
         rep['compared'] += 1
-        for v in o.get('violations', [])[:2]:
+        for v in [v for v in o.get('violations', []) if str(v[1]) != 'condition false'][:2]:
+            # (boolean library predicates with eps-level internal thresholds are exact over R but not robust in floats at
+            # random data: h.true failures are not promoted; value comparisons, must-raise and exceptions are)
             # an assertion of the claim failing on the real, unshimmed library at the validation inputs: a concrete candidate
             # (re-replayed and triaged like a solver counterexample)
             rep['native_failures'].append(dict(claim=n, label=v[0], detail=str(v[1])[:300], inputs=g['inputs']))
